@@ -166,3 +166,45 @@ Theorem C08_heap_source_nonvacuous :
   hrun_src alloc_src free_src ops hinit [] = Some ({| chunks := [(0, 2)]; released := []; cur := 2; mx := 12 |}, [0; 4; 0]).
 Proof. exact KV.Proofs.HeapSrcProofs.heap_source_example. Qed.
 Print Assumptions C08_heap_source_is_model.
+
+(** ---- source tie of the scheduler (partial for the allocation pass): the WHOLE translated sim.SimOps.__init__ (Gen/SimOpsSrc.v,
+    regenerated from the current source) is its allocation section [alloc_src_] -- which runs over the translated class Heap
+    (Gen/HeapSrc.v) -- applied to the MODEL's op rows, stem table, reference counts and level boundaries.
+    NOT yet a theorem: alloc_src_ ... = the allocation events of [build] (c_locs / c_caps / c_len).  Missing: threading the heap
+    invariant (HInv, free only of live locations) through the translated loops so that C08_heap_source_is_model applies at every
+    call; until then the allocation section is tied by correspondence (translated source = implementation = model per case). *)
+From KV Require Import Model.SimOpsSrcLib Gen.SimOpsSrc.
+From KV Require Proofs.SimOpsSrcLevels.
+Theorem C08_simops_source_prefix_partial : forall c actrl caps cmin reuse strip stems,
+  (forall n l, In (Some l) (n_outs (get_node c n)) -> (l < List.length actrl)%nat /\ (l < KV.Proofs.SimOpsSrcLevels.src_len c)%nat) ->
+  (List.length (c_lines c) + 1 < List.length actrl)%nat ->
+  build_stems c strip (KV.Proofs.SimOpsSrcLevels.src_len c) = Some stems -> List.length stems = KV.Proofs.SimOpsSrcLevels.src_len c ->
+  Forall (KV.Proofs.SimOpsSrcLevels.op_ok (KV.Proofs.SimOpsSrcLevels.src_len c) stems) (build_ops c strip) ->
+  let nl := List.length (c_lines c) in let sl := List.length (s_nodes c) in
+  let ops := build_ops c strip in let rows := map (row_of_sop actrl) ops in
+  let ls := levelize stems ops (KV.Proofs.SimOpsSrcLevels.src_len c) in
+  let starts := rev (ls_starts ls) in let stops := tl starts ++ [List.length ops] in
+  simops_src c actrl caps cmin reuse strip (S (List.length (c_nodes c)))
+  = bind (alloc_src_ c sl nl (nl + 1)%nat (nl + 2)%nat (nl + 3)%nat (nl + 3 + sl)%nat (KV.Proofs.SimOpsSrcLevels.src_len c) rows stems (ls_ref ls) starts stops caps cmin reuse)
+      (fun '(locs, cps, clen) => Some (rows, starts, stops, locs, cps, clen, stems)).
+Proof. exact KV.Proofs.SimOpsSrcLevels.simops_source_prefix. Qed.
+
+(** the allocation section translated from the CURRENT source is the pinned translation (see Proofs/SimOpsSrcAllocPin.v): a changed
+    allocation pass breaks this obligation even though its equality with [build] is not yet a theorem *)
+From KV Require Proofs.SimOpsSrcAllocPin.
+Theorem C08_simops_alloc_section_pinned : alloc_src_ = KV.Proofs.SimOpsSrcAllocPin.alloc_pin.
+Proof. exact KV.Proofs.SimOpsSrcAllocPin.alloc_section_pinned. Qed.
+
+(** the same for EVERY well-formed netlist and any a_ctrl argument, without range side conditions *)
+From KV Require Proofs.SimOpsSrcDomain.
+Theorem C08_simops_source_prefix_wf_partial : forall c given caps cmin reuse strip stems, wf_netlist c ->
+  build_stems c strip (KV.Proofs.SimOpsSrcLevels.src_len c) = Some stems ->
+  let nl := List.length (c_lines c) in let sl := List.length (s_nodes c) in
+  let actrl := a_ctrl_norm given (nl + 3)%nat in
+  let ops := build_ops c strip in let rows := map (row_of_sop actrl) ops in
+  let ls := levelize stems ops (KV.Proofs.SimOpsSrcLevels.src_len c) in
+  let starts := rev (ls_starts ls) in let stops := tl starts ++ [List.length ops] in
+  simops_src c actrl caps cmin reuse strip (S (List.length (c_nodes c)))
+  = bind (alloc_src_ c sl nl (nl + 1)%nat (nl + 2)%nat (nl + 3)%nat (nl + 3 + sl)%nat (KV.Proofs.SimOpsSrcLevels.src_len c) rows stems (ls_ref ls) starts stops caps cmin reuse)
+      (fun '(locs, cps, clen) => Some (rows, starts, stops, locs, cps, clen, stems)).
+Proof. exact KV.Proofs.SimOpsSrcDomain.simops_source_prefix_wf. Qed.
